@@ -413,6 +413,12 @@ def c04(ck):
         t = {"shared": True, "threads": [{"mode": "heartbeat"} for _ in range(2 + k % 3)] + [{"mode": "pause", "stack_pages": 1, "sp_off": 800}]}
         ex.append({"id": f"exit/{k}", "target": t, "writer": {"blamed": "main"}, "want_regs": True,
                    "faults": {"failspots": ["StopProcess"], "actions": [{"at": {"hook": "enumerate:done"}, "do": "exit", "slot": k % (2 + k % 3)}]}})
+    # a thread that cannot be attached to (held by another tracer / zombie leader) must not affect the others
+    for k in range(2 if quick else 12):
+        n = 4 + k
+        ths = [{"mode": "pause", "stack_pages": 1, "sp_off": 700, "seed": 50 * k + i} for i in range(n)]
+        ex.append({"id": f"pretraced/{k}", "target": {"threads": ths}, "writer": {"blamed": "main"}, "want_regs": True, "pretrace_slots": [k % 2, 2]})
+        ex.append({"id": f"zombie-leader/{k}", "target": {"threads": ths, "leader_exits": True}, "writer": {"blamed": {"slot": 1}, "stop_timeout_ms": 30}, "want_regs": True})
     runs2 = dumps.run_scenarios(ck, ex, "c04_exit")
     evs += [e for r in runs2 for d in r["dumps"] for e in th_proj.c04_events(r, d)]
     # snapshot consistency under running threads: spinners, process not group-stopped (threads are stopped one by one by attach)
@@ -540,6 +546,10 @@ def _skip_scenarios(quick, seed):
                     spec = {"region_map_end": "prin", "off": -1}
                 t["words"] = [[8 * rnd.randrange(0, 6), spec]]
             threads.append(t)
+        threads += [{"mode": "pause", "stack_pages": 1, "sp_off": 1024, "words": [[0, {"region": "prin", "off": 8}]]},       # the word AT the stack pointer
+                    {"mode": "pause", "stack_pages": 1, "sp_off": 1024, "words": [[-8, {"region": "prin", "off": 8}]]},      # one word below it
+                    {"mode": "pause", "stack_pages": 1, "sp_off": 1027, "words": [[5, {"region": "prin", "off": 8}]]},       # first aligned word above an unaligned SP
+                    {"mode": "pause", "stack_pages": 1, "sp_off": 4088, "words": [[0, {"region": "prin", "off": 8}]]}]       # the last word of the stack
         tgt = {"threads": threads, "regions": [{"name": "prin", "len": 8192, "exec": True}]}
         w = {"blamed": {"slot": 0}, "skip": True, "principal": {"region": "prin", "off": rnd.randrange(0, 8192)}}
         if k % 2 == 0:
@@ -691,6 +701,13 @@ def _c03_scenarios(quick, seed):
     # a thread exits between enumeration and attach (process not group-stopped), with signals to the survivor
     for slot in (0, 1):
         scns.append(mk(f"exit/{slot}", [{"at": {"hook": "enumerate:done"}, "do": "exit", "slot": slot}, {"at": {"hook": "suspended"}, "do": "signal", "sig": "rt", "to_slot": 1 - slot}], stopfail=True))
+    # stop_process fails AFTER the SIGSTOP was sent (the leader never shows as stopped: it is a zombie; or a zero timeout)
+    zt = dict(tgt, leader_exits=True)
+    for k, at in enumerate([{"hook": "suspended"}, {"hook": "attach:ok", "slot": 1}]):
+        s = mk(f"stop-timeout/zombie-leader/{k}", [{"at": at, "do": "signal", "sig": "rt", "to_slot": 1}], writer={"blamed": {"slot": 0}, "stop_timeout_ms": 30})
+        s["target"] = zt
+        scns.append(s)
+    scns.append(mk("stop-timeout/zero", [{"at": {"hook": "suspended"}, "do": "signal", "sig": "rt", "to_slot": 0}], writer={"blamed": "main", "stop_timeout_ms": 0}))
     # two dumps in a row on one writer, signals in between and during
     scns.append(dict(mk("twice", [{"at": {"hook": "suspended"}, "do": "signal", "sig": "rt", "to_slot": 0}]), history=[{"op": "dump"}, {"op": "dump", "actions": [{"at": {"hook": "attach:ok", "slot": 1}, "do": "signal", "sig": "rt", "to_slot": 1}]}]))
     return scns
